@@ -4081,6 +4081,8 @@ class Wallet(object):
         if fee is False:
             transaction.change = 0
             transaction.fee = int(amount_total_input - amount_total_output)
+            if transaction.fee < 0:
+                raise WalletError("Total amount of outputs is greater then total amount of inputs")
         else:
             transaction.change = int(amount_total_input - (amount_total_output + transaction.fee))
 
